@@ -496,8 +496,10 @@ Proof.
         rewrite O. simpl. lia.
       * rewrite X. lia.
     + rewrite andb_false_r in X. simpl in X. rewrite X. simpl. lia.
-  - unfold layer_step in E. rewrite upd_layer_oob in E by auto. unfold get_layer in E at 1 2. rewrite nth_overflow in E by auto.
-    simpl in E. assert (Es : s1 = s) by (inversion E; auto). rewrite Es in *.
+  - assert (Es : s1 = s).
+    { unfold layer_step in E. rewrite upd_layer_oob in E by auto. unfold get_layer in E. rewrite nth_overflow in E by auto.
+      simpl in E. inversion E; auto. }
+    rewrite Es in *.
     destruct (Q2 i Hi) as (_ & _ & _ & _ & _ & O2). rewrite O2.
     assert (El : Nat.eqb l (m_layer (get_mon s i)) = false) by (apply Nat.eqb_neq; lia). rewrite El. simpl. lia.
 Qed.
@@ -516,7 +518,7 @@ Proof.
   pose proof I as [_ P]. pose proof (P t i Hin) as Hi.
   destruct (step_obs_layer w s o i I Hi) as [Lay Obs].
   assert (LL : length (layers (fst (step w s o))) = length (layers s)).
-  { unfold step. destruct (op_enabled s o); auto. destruct (step_raw w s o) as [s1 r] eqn:E. simpl.
+  { unfold step. destruct (op_enabled s o); auto. destruct (step_raw w s o) as [s1 r] eqn:E. cbn [fst].
     assert (I1 : Inv1 s1) by (eapply step_raw_Inv1; eauto).
     destruct (collect_Inv1 s1 I1) as [_ (_ & _ & _ & LL2 & _)]. rewrite LL2.
     destruct (classic_layer_step o) as [[l ->]|NL].
@@ -527,7 +529,7 @@ Proof.
     - pose proof (step_raw_quiet _ _ _ _ _ NL E I) as (_ & _ & _ & A & _). exact A. }
   rewrite (IH (fst (step w s o)) t i); auto.
   - rewrite Lay. destruct (classic_layer_step o) as [[l ->]|NL].
-    + rewrite (step_layer_obs_count w s l t i); auto. lia.
+    + rewrite (step_layer_obs_count w s l t i); auto; [lia|apply (Hok l); reflexivity].
     + rewrite (Obs NL). destruct o; try lia. exfalso. apply (NL l). reflexivity.
   - apply step_Inv1; auto.
   - apply step_TI; auto.
